@@ -15,7 +15,15 @@ From Glb Require Import Lib.ArgGrammar Model.ArgParse Model.FlagValue Model.Conf
 Open Scope N_scope.
 
 Record fobs := {
-  fo_flag : flag;
+  fo_kind : kind;
+  fo_group : list N;                                (* group path of the enclosing structs, e.g. "Sub_Deep_" *)
+  fo_goname : list N;                               (* Go field name *)
+  fo_tag : list N;                                  (* field.Tag.Get("flag") *)
+  fo_hname : list N;                                (* flag name and tag default as the harness author reads the documentation *)
+  fo_hdef : list N;
+  fo_bound : bool;                                  (* Lookup(hname) exists and its Value points at this very field *)
+  fo_usage : list N;                                (* Flag.Usage of the implementation *)
+  fo_init : list N;                                 (* canonical field value right after NewFlagSet *)
   fo_envhand : list N;                              (* the env name the harness used (written by hand) *)
   fo_envobs : list N;                               (* Flag.Env of the implementation *)
   fo_env : option (list N);                         (* text of the env variable, None = unset *)
@@ -24,6 +32,9 @@ Record fobs := {
   fo_final : option (list N);                       (* observed canonical final value (None when Parse failed) *)
   fo_oracle : list (list N * option (list N))       (* text -> canonical value by the stdlib parser, None = error *)
 }.
+
+(** the flag the MODEL derives from the struct field (parse_tag, group recursion) *)
+Definition fo_flag (fo : fobs) : flag := flag_of_field (fo_group fo) (fo_goname fo) (fo_tag fo) (fo_kind fo).
 
 Definition kind_eqb (a b : kind) : bool :=
   match a, b with
@@ -42,7 +53,7 @@ Fixpoint oracle_of (fos : list fobs) (k : kind) (t : list N) : sres :=
   match fos with
   | [] => SErr
   | fo :: r =>
-      if kind_eqb (fkind (fo_flag fo)) k then
+      if kind_eqb (fo_kind fo) k then
         match pair_lookup (fo_oracle fo) t with
         | Some (Some c) => match value_of_canon k c with Some v => SOk v | None => SErr end
         | Some None => SErr
@@ -59,7 +70,7 @@ Fixpoint env_lookup (l : list (list N * list N)) (n : list N) : option (list N) 
 
 Definition overlay_of (sel : fobs -> option (list N)) (fos : list fobs) : list (token * value) :=
   flat_map (fun fo => match sel fo with
-                      | Some c => match value_of_canon (fkind (fo_flag fo)) c with
+                      | Some c => match value_of_canon (fo_kind fo) c with
                                   | Some v => [(fname (fo_flag fo), v)]
                                   | None => []
                                   end
@@ -83,6 +94,8 @@ Definition world_of (fos : list fobs) (cfgfile : option (list N)) (b64set : bool
 Record verdict := {
   v_spec_fail : list token;     (* fields whose observed value is not the priority rule's winner *)
   v_env_fail : list token;      (* fields whose Flag.Env is not Underscore("CFG_"+path, true) / not the documented name *)
+  v_tag_fail : list token;      (* fields whose tag is not split as documented (name, default, usage, binding, initial value) *)
+  v_skipped : N;                (* fields the priority rule could not be applied to (Parse failed: the property is conditional) *)
   v_model_fail : list token;    (* fields where [run] and the implementation differ *)
   v_outcome : bool;             (* success / failure as the model predicts *)
   v_rest : bool;                (* Args() *)
@@ -95,6 +108,8 @@ Fixpoint tokens_eqb (a b : list token) : bool :=
   | x :: a', y :: b' => bytes_eqb x y && tokens_eqb a' b'
   | _, _ => false
   end.
+
+Definition no_oracle : oracle := fun _ _ => SErr.
 
 Definition sres_value (r : sres) : option value := match r with SOk v => Some v | SErr => None end.
 
@@ -124,18 +139,16 @@ Definition sres_eqb (a b : sres) : bool :=
   | _, _ => false
   end.
 
-Definition no_oracle : oracle := fun _ _ => SErr.
-
 Definition parsers_ok (fos : list fobs) : bool :=
   forallb (fun fo =>
-    let k := fkind (fo_flag fo) in
+    let k := fo_kind fo in
     forallb (fun p => match fst p with
                       | [] => sres_eqb (set_T no_oracle k []) (oracle_of [fo] k [])
                       | t => if in_model k t then sres_eqb (set_T no_oracle k t) (oracle_of [fo] k t) else true
                       end) (fo_oracle fo)) fos.
 
 Definition check_case (fos : list fobs) (vec : list token) (cfgfile : option (list N)) (b64set : bool)
-    (ok : bool) (rest : list token) : verdict :=
+    (ok : bool) (rest : list token) (help : option bool) : verdict :=
   let fields := map fo_flag fos in
   let w := world_of fos cfgfile b64set in
   let env_fail := flat_map (fun fo => if bytes_eqb (fenv (fo_flag fo)) (fo_envobs fo) && bytes_eqb (fo_envhand fo) (fo_envobs fo)
@@ -146,27 +159,45 @@ Definition check_case (fos : list fobs) (vec : list token) (cfgfile : option (li
       | Ok asg _ =>
           let cfg := final_value asg config_name in
           let use_file := match cfg with Some (_ :: _) => true | _ => false end in
+          (match help with
+           | Some h => match (match final_value asg help_name with Some t => set_T no_oracle KBool t | None => SOk (VBool false) end) with
+                       | SOk (VBool b) => if Bool.eqb b h then [] else [help_name]
+                       | _ => [help_name]
+                       end
+           | None => []
+           end) ++
           flat_map (fun fo => match fo_final fo, expected (oracle_of fos) asg use_file b64set fo with
                               | Some fin, Some v => if value_matches v fin then [] else [fname (fo_flag fo)]
-                              | _, _ => []
+                              | Some _, None => [fname (fo_flag fo)]   (* success although the winner is unparsable *)
+                              | None, _ => []
                               end) fos
-      | _ => []
+      | _ => map (fun fo => fname (fo_flag fo)) fos                      (* success although the command line is malformed *)
       end
     else [] in
+  let tag_fail := flat_map (fun fo =>
+      let '(n, d, u) := parse_tag (fo_tag fo) (fo_goname fo) in
+      if bytes_eqb n (fo_hname fo) && bytes_eqb d (fo_hdef fo) && bytes_eqb u (fo_usage fo) && fo_bound fo
+         && match set_T (oracle_of fos) (fo_kind fo) d with SOk v => value_matches v (fo_init fo) | SErr => false end
+      then [] else [fo_hname fo]) fos in
+  let skipped := N.of_nat (length (filter (fun fo => match fo_final fo with None => true | Some _ => false end) fos)) in
   match run w fields vec with
   | RParse (POk s rest') =>
-      {| v_spec_fail := spec_fail; v_env_fail := env_fail;
-         v_model_fail := flat_map (fun fo => match fo_final fo, get s (fname (fo_flag fo)) with
+      {| v_spec_fail := spec_fail; v_env_fail := env_fail; v_tag_fail := tag_fail; v_skipped := skipped;
+         v_model_fail :=
+           (match help, get s help_name with
+            | Some h, Some (VBool b) => if Bool.eqb b h then [] else [help_name]
+            | _, _ => [help_name]
+            end) ++ flat_map (fun fo => match fo_final fo, get s (fname (fo_flag fo)) with
                                              | Some fin, Some v => if value_matches v fin then [] else [fname (fo_flag fo)]
                                              | _, _ => [fname (fo_flag fo)]
                                              end) fos;
          v_outcome := ok; v_rest := tokens_eqb rest rest'; v_parsers := parsers_ok fos |}
   | _ =>
-      {| v_spec_fail := spec_fail; v_env_fail := env_fail; v_model_fail := [];
+      {| v_spec_fail := spec_fail; v_env_fail := env_fail; v_tag_fail := tag_fail; v_skipped := skipped; v_model_fail := [];
          v_outcome := negb ok; v_rest := true; v_parsers := parsers_ok fos |}
   end.
 
 Definition is_nil {A} (l : list A) : bool := match l with [] => true | _ => false end.
-Definition verdict_spec_ok (v : verdict) : bool := is_nil (v_spec_fail v) && is_nil (v_env_fail v).
+Definition verdict_spec_ok (v : verdict) : bool := is_nil (v_spec_fail v) && is_nil (v_env_fail v) && is_nil (v_tag_fail v).
 Definition verdict_ok (v : verdict) : bool :=
   verdict_spec_ok v && is_nil (v_model_fail v) && v_outcome v && v_rest v && v_parsers v.
